@@ -42,6 +42,7 @@ type Plan struct {
 	Rule       string `json:"rule"`
 	Level      string `json:"level"`
 	Race       bool   `json:"race"` // runs want the -race build
+	RaceEvery  int    `json:"race_every"` // > 0: every RaceEvery-th run wants the -race build
 }
 
 type PropDef struct {
